@@ -15,6 +15,7 @@ import (
 	"errors"
 	"fmt"
 	sqlite3 "github.com/mattn/go-sqlite3"
+	"github.com/transparency-dev/witness/internal/feeder"
 	"io"
 	"net/http"
 	"net/url"
@@ -164,6 +165,7 @@ type Engine struct {
 	parked   map[string]*parkedTask
 	inflight map[string]bool
 	holder   map[string]bool
+	adapter  feeder.Witness
 	occ      map[string]int
 	faults   map[string]string
 	cur      map[string]*OpRec
@@ -602,7 +604,12 @@ func (e *Engine) execOp(idx int, task string, invokeEvent int) {
 		}
 		rec.Req = &Request{LogIdx: l.Idx, LogID: id, Known: op.M != "unknownlog"}
 		rec.TInvoke = time.Now()
-		rec.Out, rec.Err = e.wit.GetCheckpoint(id)
+		if e.plan.Cfg.Extra["via_adapter"] != 0 {
+			// as feeders and the distributor read: through the one adapter Main builds
+			rec.Out, rec.Err = e.adapter.GetLatestCheckpoint(ctx, id)
+		} else {
+			rec.Out, rec.Err = e.wit.GetCheckpoint(id)
+		}
 		rec.TReturn = time.Now()
 		rec.Done = true
 	case "list":
@@ -632,7 +639,7 @@ func (e *Engine) execOp(idx int, task string, invokeEvent int) {
 		rec.TInvoke = time.Now()
 		if e.plan.Cfg.Extra["via_adapter"] != 0 {
 			// through the adapter omniwitness.Main puts between the witness and its feeders / the bastion endpoint
-			rec.Out, rec.Err = omniwitness.VerifWitnessAdapter(e.wit).Update(uctx, req.LogID, req.Old, req.CP, req.Proof)
+			rec.Out, rec.Err = e.adapter.Update(uctx, req.LogID, req.Old, req.CP, req.Proof)
 		} else {
 			rec.Out, rec.Err = e.wit.Update(uctx, req.LogID, req.Old, req.CP, req.Proof)
 		}
@@ -1159,6 +1166,7 @@ func executeInBubble(t *testing.T, plan *Plan) (res *RunResult) {
 			return
 		}
 		e.wit = wit
+		e.adapter = omniwitness.VerifWitnessAdapter(wit) // one per witness, as in Main
 		router := mux.NewRouter()
 		ihttp.NewServer(wit).RegisterHandlers(router)
 		e.net = NewSimNet()
@@ -1226,7 +1234,9 @@ func executeInBubble(t *testing.T, plan *Plan) (res *RunResult) {
 	return res
 }
 
-func isNotFound(err error) bool { return err != nil && status.Code(err) == codes.NotFound }
+func isNotFound(err error) bool {
+	return err != nil && (status.Code(err) == codes.NotFound || errors.Is(err, os.ErrNotExist)) // the adapter's spelling of "nothing stored"
+}
 
 func dumpGoroutines() {
 	if os.Getenv("VERIF_DEBUG") != "" {
